@@ -102,7 +102,7 @@ func (h *harness) genCases() []tcase {
 	}
 	mult := 1
 	if r.Thorough {
-		mult = 6
+		mult = 4
 	}
 	// deflate family
 	levels := []int{0, 1, 6, 9, -2}
@@ -465,6 +465,7 @@ func (h *harness) valgrindSection() {
 		}(k, i)
 	}
 	wg.Wait()
+	nNotes := 0
 	for k, i := range sel {
 		c := &cases[i]
 		res := results[k]
@@ -494,8 +495,24 @@ func (h *harness) valgrindSection() {
 					break
 				}
 			}
-			r.Fail("valgrind:"+c.codec+":"+where, "memcheck: "+what+" under LEAVE_INTERNAL_BUFFERS_UNINITIALIZED ("+c.label+")",
-				c.cmd(config{"valgrind", "2", "u", "00", "none"}, nil, nil, nil)+"\n"+res.log)
+			// Search support only: C09 is about RESULTS. A flagged read is followed up by decoding the
+			// same case over eight more PRNG-filled memories; only a differing result is a failure.
+			r.Count("valgrind:uninitialised-read:" + c.codec + ":" + where)
+			if nNotes < 12 {
+				nNotes++
+				r.Note(fmt.Sprintf("valgrind (%s, %s): %s in %s — followed up with 8 more garbage patterns", c.codec, c.label, what, where))
+			}
+			pl := h.pools["default"]
+			base := pl.ask(c.cmd(config{"base", "z", "z", "00", "none"}, nil, nil, nil))
+			for k := 0; k < 8; k++ {
+				cf := config{"valgrind-follow-up", "2", fmt.Sprintf("r:%d", 7000+k*13), "00", "none"}
+				if ans := pl.ask(c.cmd(cf, nil, nil, nil)); ans != base {
+					r.Fail("matrix:"+c.codec+":garbage-after-valgrind-hint:"+where,
+						fmt.Sprintf("%s (%s): result depends on uninitialised memory (valgrind: %s in %s)\n  %s\nvs zeroed memory\n  %s", c.codec, c.label, what, where, ans, base),
+						c.cmd(cf, nil, nil, nil)+"\n"+c.cmd(config{"base", "z", "z", "00", "none"}, nil, nil, nil))
+					break
+				}
+			}
 		}
 	}
 	_ = image.Rect
